@@ -609,6 +609,34 @@ pub fn generate(s: &mut Session, thorough: bool) -> bool {
             mirror_case(s, "mirror-plateau", &ws, &ps, &mut mtotal, &mut worst);
         }
     }
+    // (iv-c) mirror with two pad clusters in the same column and time bin whose maxima are 2, 3, 4, 6
+    // rows apart (the scan over the rows must treat both alike whatever its direction); amplitudes of
+    // the two clusters differ, so the tie of finding F8 does not arise
+    for i in 0..(if thorough { 300 } else { 40 }) {
+        let mut ws = empty_wires();
+        let mut ps = empty_pads();
+        let len = 100usize;
+        let w = rng.below(n as u64) as usize;
+        let w2 = (w / 8) * 8 + (w + 3) % 8;          // another wire of the same pad column
+        let k = 10 + rng.below(60) as usize;
+        ws[w] = Some(b.wire_signal(&mut rng, len, &[(k, 400.0 + 10.0 * i as f64)], 0.0));
+        if w2 != w {
+            ws[w2] = Some(b.wire_signal(&mut rng, len, &[(k, 250.0 + 7.0 * i as f64)], 0.0));
+        }
+        let col = verif_wire_to_pad_column(w);
+        let gap = [2usize, 3, 4, 6, 2, 3][i % 6];
+        let row0 = 2 + rng.below((TPC_PAD_ROWS - 20) as u64) as usize;
+        for (c, (r, amp)) in [(row0, 1000.0 + 13.0 * i as f64), (row0 + gap, 700.0 + 9.0 * i as f64)].iter().enumerate() {
+            let shape: &[f64] = if (i + c) % 2 == 0 { &[0.45, 1.0, 0.35] } else { &[0.3, 1.0, 0.5] };
+            for (d, f) in shape.iter().enumerate() {
+                let rr = r + d - 1;
+                let slot = &mut ps[col][rr];
+                let sig = slot.get_or_insert_with(|| vec![0.0; len]);
+                pulse_into(sig, k, amp * f, &b.pad_resp);
+            }
+        }
+        mirror_case(s, "mirror-close-maxima", &ws, &ps, &mut mtotal, &mut worst);
+    }
     s.notes.insert("mirror_base_avalanches".into(), mtotal.into());
     s.notes.insert("mirror_worst_z_error_m".into(), worst.into());
 
